@@ -267,16 +267,15 @@ def r_root_list(repo, rep, R='R4.2'):
     texts = _category_texts(mod, binds[0].value)
     if texts is None:
         raise AnalysisError('%s:%d the entries of _possible_root_categories cannot be read off the source' % (mod.rel, binds[0].lineno))
-    am = repo.module('depccg/argparse.py')
     defaults = []
-    for n in ast.walk(am.tree):
-        if isinstance(n, ast.Call) and isinstance(n.func, ast.Attribute) and n.func.attr == 'add_argument' and n.args \
-                and isinstance(n.args[0], ast.Constant) and n.args[0].value == '--root-cats':
-            for kw in n.keywords:
-                if kw.arg == 'default':
-                    v = _expand_strings(am, kw.value, {})
-                    if v is not None and len(v) == 1 and 'mod=' in v[0]:        # the Japanese one: feature triples
-                        defaults.append((n.lineno, v[0].split('|')))
+    try:
+        from ..cli import cli_options
+        _, _, options = cli_options(repo)
+        for o in options:
+            if '--root-cats' in o.flags and isinstance(o.const('default'), str) and 'mod=' in o.const('default'):       # the Japanese one: feature triples
+                defaults.append((getattr(o.node, 'lineno', 0), o.const('default').split('|')))
+    except AnalysisError:
+        defaults = []
     if len(defaults) != 1:
         # the command line is outside this property's anchors: when its table cannot be located the comparison is
         # recorded as not made rather than guessed
